@@ -4,6 +4,19 @@ Complete and finite: 9 libraries x {by name, by explicit path, from a
 relocated copy selected through pgradd_DATA_DIR}, each of the 27 combinations
 in its own fresh subprocess (the data directory is cached per process) x every
 group, property, pattern, remap and uncertainty entry.
+
+Wave 3: the relocated copy of those 27 combinations is byte-identical to the
+bundled tree, so it cannot show WHICH tree a file was read from.  Nine more
+fresh processes (one per library, shards ('variants', L)) run with
+pgradd_DATA_DIR pointing at a relocated tree that differs from the bundled
+one (built by domains/w3_c14 with PyYAML only) and load, in this order: the
+bundled library.yaml by explicit path (anchor; the override must not touch
+it), L by name and by path from a copy in which every file that is read -
+library.yaml, scheme.yaml and each transitively included file - carries its
+own marker, L's unmarked files under three directory names no bundled library
+has, and L's unmarked files under the name of the next bundled library
+(names rotated cyclically).  Every marker must be visible, and apart from the
+markers every dump must be identical to the anchor.
 """
 import json
 import math
@@ -17,6 +30,7 @@ from ..runner import Result
 from ..models import thermoref as tr
 from ..models import ringref
 from ..domains import libs
+from ..domains import w3_c14 as w3
 from .. import VERIF, REPO
 
 TWO_HASH_SEEDS = ('quick', 'thorough')   # tiers in which the space is walked under a second PYTHONHASHSEED
@@ -24,19 +38,38 @@ LEVEL = 'exploration'
 WAYS = ['name', 'path', 'relocated']
 BOUND = {t: '9 libraries x 3 ways of locating them (27 fresh processes) x every '
             'group x every property with data x the temperature grid of its '
-            'range; every scheme fragment; every remap; every uncertainty entry'
+            'range; every scheme fragment; every remap; every uncertainty entry; '
+            'plus 9 fresh processes under pgradd_DATA_DIR = a relocated tree '
+            'that differs from the bundled one, x 7 loads each (bundled file by '
+            'path; all-files-marked copy by name and by path; 3 fresh directory '
+            'names; 1 rotated bundled name) x every file read (2 to 9 data '
+            'files + scheme.yaml per library, one marker each) x 6 content keys'
          for t in ('quick', 'thorough')}
 RULE = ('the space is finite and enumerated completely; a case is one (library, '
         'way, group, property, temperature) evaluation, one fragment, one remap '
-        'rule or one uncertainty entry; non-trivial = everything except the '
-        'plain by-name evaluation of a group with a complete record')
+        'rule or one uncertainty entry; in the differing-relocated-tree family a '
+        'case is one load, one marker of one file, or one content key of one '
+        'load compared with the bundled contents; non-trivial = everything '
+        'except the plain by-name evaluation of a group with a complete record')
 ASSUMPTIONS = ['positive semi-definite: smallest eigenvalue >= -1e-9 x largest, '
                'by a cyclic Jacobi iteration written for this check',
                'a fragment is "readable" when the scheme loads and the '
-               'reference reader accepts it or declares it outside its alphabet']
+               'reference reader accepts it or declares it outside its alphabet',
+               'the files a load reads are library.yaml, scheme.yaml next to it '
+               'and the transitive closure of `include:` lists (read with '
+               'PyYAML); markers are an extra dimensionless group per data file '
+               'and an extra remap rule in scheme.yaml, written by re-dumping '
+               'the file with PyYAML (the re-read file must equal the original '
+               'plus the marker, else the shard stops with an error)',
+               'within the one process of a differing relocated tree the loads '
+               'run in one fixed order (bundled path first); other orders are '
+               'not enumerated',
+               'a library name that is ABSENT from the relocated tree is not '
+               'loaded: the property does not say whether that must fail']
 MANIFEST = dict(
     technique='complete enumeration of the bundled configurations in fresh '
-              'processes, differential across three ways of locating the data',
+              'processes, differential across three ways of locating the data '
+              'and across relocated trees that differ from the bundled one',
     text='Each bundled library is loaded by name, by path and from a relocated '
          'copy (27 fresh processes); the complete content dumps must be '
          'identical; every group must evaluate to finite plain numbers for '
@@ -44,7 +77,13 @@ MANIFEST = dict(
          'fragment must be readable; remaps must be well-formed and '
          'chain-free; every uncertainty-basis descriptor must have data and '
          'the matrix must be square, symmetric, positive semi-definite and '
-         'sized to its basis.',
+         'sized to its basis. Nine further fresh processes select, through the '
+         'override, a relocated tree that differs from the bundled one: every '
+         'file a load reads carries its own marker (all must show up, by name '
+         'and by path), the library is also present under three names the '
+         'bundle does not have and under the name of the next bundled library; '
+         'apart from the markers all contents must equal those of the bundled '
+         'file loaded by path in the same process.',
     note='The shipped data are the whole space; nothing is sampled.',
     ref='5/C14')
 
@@ -59,84 +98,104 @@ warnings.simplefilter('ignore')
 import numpy as np
 import pgradd.ThermoChem
 from pgradd.GroupAdd.Library import GroupLibrary
-name, arg = %(name)r, %(arg)r
-out = dict(name=name, arg=arg)
-try:
-    lib = GroupLibrary.Load(arg)
-except Exception as e:
-    out['load_error'] = '%%s: %%s' %% (type(e).__name__, str(e)[:300])
-    real.write(json.dumps(out)); real.flush(); os._exit(0)
-out['path'] = lib.path
-groups = {}
-evals = []
+name = %(name)r
 def plain(v):
     return isinstance(v, (int, float, np.floating, np.integer)) and not isinstance(v, bool) and math.isfinite(float(v))
-for g in lib:
-    ps = lib[g]
-    rec = dict(sets=sorted(ps))
-    if 'thermochem' in ps:
-        k = ps['thermochem']
-        rng = k.get_range()
-        rec.update(T_ref=repr(k.T_ref), H=repr(k.ND_H_ref), S=repr(k.ND_S_ref),
-                   Cp=[(repr(T), repr(v)) for T, v in sorted(k.ND_Cp_data.items())],
-                   range=None if rng is None else [repr(rng[0]), repr(rng[1])],
-                   cls=type(k).__name__)
-        knots = sorted(float(t) for t in k.ND_Cp_data)
-        if rng is not None:
-            ts = {float(rng[0]), float(rng[1]), 0.5 * (float(rng[0]) + float(rng[1]))}
-            ts |= {t for t in knots if rng[0] <= t <= rng[1]}
-            if rng[0] <= k.T_ref <= rng[1]:
-                ts.add(float(k.T_ref))
-        else:
-            ts = set(knots) | ({float(k.T_ref)} if (not knots or knots[0] <= k.T_ref <= knots[-1]) else set())
-        for prop, has in (('get_CpoR', bool(k.ND_Cp_data)), ('get_HoRT', k.ND_H_ref is not None),
-                          ('get_SoR', k.ND_S_ref is not None)):
-            if not has:
-                continue
-            for T in sorted(ts):
-                try:
-                    v = getattr(k, prop)(T)
-                    ok = plain(v)
-                    evals.append((str(g), prop, T, 'ok' if ok else 'not-plain-finite:%%r' %% (v,)))
-                except Exception as e:
-                    evals.append((str(g), prop, T, 'raises:' + type(e).__name__))
-    groups[str(g)] = rec
-out['groups'] = groups
-out['evals'] = evals
-sch = lib.scheme
-out['n_patterns'] = len(sch.patterns)
-out['n_descriptors'] = len(sch.other_descriptors)
-out['pattern_names'] = [(p['center_name'], p['periph_name']) for p in sch.patterns]
-out['remaps'] = {str(k): v for k, v in sch.remaps.items()}
-uq = lib.uq_contents
-if uq:
-    m = uq['mat']
-    out['uq'] = dict(descriptors=[str(x) for x in uq['descriptors']],
-                     shape=list(m.shape), mat=[[float(x) for x in row] for row in m.tolist()] if m.ndim == 2 else None,
-                     dof=uq['dof'], rmse=sorted(uq['RMSE']))
-    out['uq_basis_with_data'] = [bool('thermochem' in lib[x]) for x in uq['descriptors']]
-real.write(json.dumps(out)); real.flush(); os._exit(0)
+def dump(arg, with_evals):
+    out = dict(name=name, arg=arg)
+    try:
+        lib = GroupLibrary.Load(arg)
+    except Exception as e:
+        out['load_error'] = '%%s: %%s' %% (type(e).__name__, str(e)[:300])
+        return out
+    out['path'] = lib.path
+    groups = {}
+    evals = []
+    for g in lib:
+        ps = lib[g]
+        rec = dict(sets=sorted(ps))
+        if 'thermochem' in ps:
+            k = ps['thermochem']
+            rng = k.get_range()
+            rec.update(T_ref=repr(k.T_ref), H=repr(k.ND_H_ref), S=repr(k.ND_S_ref),
+                       Cp=[(repr(T), repr(v)) for T, v in sorted(k.ND_Cp_data.items())],
+                       range=None if rng is None else [repr(rng[0]), repr(rng[1])],
+                       cls=type(k).__name__)
+            try:
+                rec['Hf'] = None if k.ND_H_ref is None else float(k.ND_H_ref)
+            except Exception:
+                rec['Hf'] = 'not-a-number'
+            knots = sorted(float(t) for t in k.ND_Cp_data)
+            if rng is not None:
+                ts = {float(rng[0]), float(rng[1]), 0.5 * (float(rng[0]) + float(rng[1]))}
+                ts |= {t for t in knots if rng[0] <= t <= rng[1]}
+                if rng[0] <= k.T_ref <= rng[1]:
+                    ts.add(float(k.T_ref))
+            else:
+                ts = set(knots) | ({float(k.T_ref)} if (not knots or knots[0] <= k.T_ref <= knots[-1]) else set())
+            for prop, has in (('get_CpoR', bool(k.ND_Cp_data)), ('get_HoRT', k.ND_H_ref is not None),
+                              ('get_SoR', k.ND_S_ref is not None)):
+                if not has or not with_evals:
+                    continue
+                for T in sorted(ts):
+                    try:
+                        v = getattr(k, prop)(T)
+                        ok = plain(v)
+                        evals.append((str(g), prop, T, 'ok' if ok else 'not-plain-finite:%%r' %% (v,)))
+                    except Exception as e:
+                        evals.append((str(g), prop, T, 'raises:' + type(e).__name__))
+        groups[str(g)] = rec
+    out['groups'] = groups
+    out['evals'] = evals
+    sch = lib.scheme
+    out['n_patterns'] = len(sch.patterns)
+    out['n_descriptors'] = len(sch.other_descriptors)
+    out['pattern_names'] = [(p['center_name'], p['periph_name']) for p in sch.patterns]
+    out['remaps'] = {str(k): v for k, v in sch.remaps.items()}
+    uq = lib.uq_contents
+    if uq:
+        m = uq['mat']
+        out['uq'] = dict(descriptors=[str(x) for x in uq['descriptors']],
+                         shape=list(m.shape), mat=[[float(x) for x in row] for row in m.tolist()] if m.ndim == 2 else None,
+                         dof=uq['dof'], rmse=sorted(uq['RMSE']))
+        out['uq_basis_with_data'] = [bool('thermochem' in lib[x]) for x in uq['descriptors']]
+    return out
+# the loads of one process, in the order given (the data directory is
+# resolved by the first and remembered for the others)
+outs = [dump(arg, with_evals) for arg, with_evals in %(jobs)r]
+real.write(json.dumps(outs)); real.flush(); os._exit(0)
 '''
 
 
-def child(name, way, relocated_dir=None):
+def children(name, jobs, data_dir_override=None):
+    # One fresh process; `jobs` = [(argument of GroupLibrary.Load, evaluate
+    # every group?)] executed in that order.  Returns one dump per job.
     env = dict(os.environ)
     env.pop('pgradd_DATA_DIR', None)
+    if data_dir_override is not None:
+        env['pgradd_DATA_DIR'] = data_dir_override
+    code = CHILD % dict(repo=REPO, name=name, jobs=[(a, bool(e)) for a, e in jobs])
+    p = subprocess.run([sys.executable, '-c', code], env=env, stdout=subprocess.PIPE,
+                       stderr=subprocess.PIPE, timeout=900)
+    try:
+        outs = json.loads(p.stdout.decode())
+        assert isinstance(outs, list) and len(outs) == len(jobs)
+        return outs
+    except Exception:      # noqa
+        return [dict(load_error='child produced no result (rc=%s): %s' % (
+            p.returncode, p.stderr.decode(errors='replace')[-400:]))
+            for _ in jobs]
+
+
+def child(name, way, relocated_dir=None):
     if way == 'name':
         arg = name
     elif way == 'path':
         arg = os.path.join(libs.data_dir(), name, 'library.yaml')
     else:
         arg = name
-        env['pgradd_DATA_DIR'] = relocated_dir
-    code = CHILD % dict(repo=REPO, name=name, arg=arg)
-    p = subprocess.run([sys.executable, '-c', code], env=env, stdout=subprocess.PIPE,
-                       stderr=subprocess.PIPE, timeout=900)
-    try:
-        return json.loads(p.stdout.decode())
-    except Exception:      # noqa
-        return dict(load_error='child produced no result (rc=%s): %s' % (
-            p.returncode, p.stderr.decode(errors='replace')[-400:]))
+    return children(name, [(arg, True)],
+                    relocated_dir if way == 'relocated' else None)[0]
 
 
 def identity(name):
@@ -343,18 +402,157 @@ def run_library(R, name):
         shutil.rmtree(tmp, ignore_errors=True)
 
 
+CONTENT_KEYS = ('groups', 'n_patterns', 'n_descriptors', 'pattern_names',
+                'remaps', 'uq')
+
+
+def run_variants(R, name):
+    """Relocated trees that differ from the bundled one (domains/w3_c14):
+    one fresh process with pgradd_DATA_DIR = the tree of `name`, in which,
+    in this order, are loaded
+      anchor        the BUNDLED library.yaml by explicit path (the override
+                    must not touch a load by path) - every other dump is
+                    compared with this one;
+      marked:name   `name`, every file that is read carrying a marker;
+      marked:path   the marked library.yaml of the tree by explicit path;
+      fresh:<n>     the unmarked copy under each fresh directory name;
+      rotated:<n>   the unmarked copy under the name of the next bundled
+                    library.
+    """
+    tmp = tempfile.mkdtemp(prefix='pgv_c14v_')
+    try:
+        root = os.path.join(tmp, 'moved', 'data')
+        os.makedirs(os.path.dirname(root))
+        desc = w3.build_tree(root, name)
+        bundled = os.path.join(libs.data_dir(), name, 'library.yaml')
+        cases = [('anchor', 'anchor', bundled),
+                 ('marked', 'marked:name', name),
+                 ('marked', 'marked:path', os.path.join(root, name, 'library.yaml'))]
+        cases += [('fresh', 'fresh:' + n, n) for n in desc['fresh']]
+        cases += [('rotated', 'rotated:' + n, n) for n in desc['rotated']]
+        outs = children(name, [(arg, False) for _, _, arg in cases], root)
+
+        def wit(label):
+            return dict(kind='variants', lib=name, variant=label)
+        a = outs[0]
+        R.evals += 1
+        R.nontrivial += 1
+        if 'load_error' in a:
+            R.outcomes['variants:anchor-failed'] += 1
+            R.violation('override-breaks-load-by-path', '%s: with pgradd_DATA_DIR=%s '
+                        'the bundled %s cannot be loaded by explicit path: %s'
+                        % (name, root, bundled, a['load_error']), wit('anchor'))
+            return
+        R.outcomes['variants:anchor-loaded'] += 1
+        if os.path.realpath(a['path']) != os.path.realpath(bundled):
+            R.violation('override-redirects-load-by-path', '%s: explicit path %s '
+                        'loaded from %s while pgradd_DATA_DIR=%s' % (
+                            name, bundled, a['path'], root), wit('anchor'))
+        marks = desc['marked']
+        for (kind, label, arg), d in zip(cases[1:], outs[1:]):
+            R.evals += 1
+            R.nontrivial += 1
+            if 'load_error' in d:
+                R.outcomes['variants:load-failed'] += 1
+                R.violation('relocated-variant-load-failed:%s' % kind,
+                            '%s: Load(%r) with pgradd_DATA_DIR=%s (a relocated tree '
+                            'that differs from the bundled one: %s) failed: %s'
+                            % (name, arg, root, label, d['load_error']), wit(label))
+                continue
+            R.outcomes['variants:loaded:' + kind] += 1
+            if not os.path.realpath(d['path']).startswith(
+                    os.path.realpath(root) + os.sep):
+                R.violation('relocated-variant-ignored:%s' % kind,
+                            '%s: Load(%r) with pgradd_DATA_DIR=%s was loaded from %s'
+                            % (name, arg, root, d['path']), wit(label))
+            want = dict((k, a.get(k)) for k in CONTENT_KEYS)
+            if kind == 'marked':
+                # every file that was read must show its marker ...
+                for rel, mname, val in marks['files']:
+                    R.evals += 1
+                    R.nontrivial += 1
+                    rec = d['groups'].get(mname)
+                    if rec is None:
+                        R.outcomes['variants:marker-missing'] += 1
+                        R.violation('relocated-file-not-read:data',
+                                    '%s (%s): the marker group %s written into %s of '
+                                    'the relocated tree is missing from the loaded '
+                                    'library: that file was read from somewhere else'
+                                    % (name, label, mname, rel), wit(label))
+                    elif rec.get('Hf') != val or rec.get('sets') != ['thermochem']:
+                        R.outcomes['variants:marker-wrong'] += 1
+                        R.violation('relocated-marker-wrong',
+                                    '%s (%s): marker group %s of %s should carry '
+                                    'ND_H_ref %r, the loaded library shows %r'
+                                    % (name, label, mname, rel, val, rec), wit(label))
+                    else:
+                        R.outcomes['variants:marker-seen'] += 1
+                R.evals += 1
+                R.nontrivial += 1
+                if d['remaps'].get(marks['scheme_mark']) != marks['scheme_target']:
+                    R.outcomes['variants:marker-missing'] += 1
+                    R.violation('relocated-file-not-read:scheme',
+                                '%s (%s): the marker remap rule %s written into '
+                                'scheme.yaml of the relocated tree is %r in the loaded '
+                                'scheme: scheme.yaml was read from somewhere else'
+                                % (name, label, marks['scheme_mark'],
+                                   d['remaps'].get(marks['scheme_mark'])), wit(label))
+                else:
+                    R.outcomes['variants:marker-seen'] += 1
+                # ... and nothing else may differ from the bundled contents
+                names = set(m for _, m, _ in marks['files'])
+                got = dict((k, d.get(k)) for k in CONTENT_KEYS)
+                got['groups'] = dict((g, r) for g, r in d['groups'].items()
+                                     if g not in names)
+                got['remaps'] = dict((k, v) for k, v in d['remaps'].items()
+                                     if k != marks['scheme_mark'])
+            else:
+                got = dict((k, d.get(k)) for k in CONTENT_KEYS)
+            for key in CONTENT_KEYS:
+                R.evals += 1
+                R.nontrivial += 1
+                if got[key] != want[key]:
+                    diff = ''
+                    if key == 'groups':
+                        ks = sorted(set(got['groups']) ^ set(want['groups'])) or \
+                            [g for g in want['groups']
+                             if want['groups'][g] != got['groups'].get(g)]
+                        diff = ' (first difference: %s)' % ks[:2]
+                    R.outcomes['variants:contents-differ'] += 1
+                    R.violation('relocated-variant-contents-differ:%s:%s' % (kind, key),
+                                '%s: %s of Load(%r) from the relocated tree (%s) '
+                                'differs from the bundled library%s'
+                                % (name, key, arg, label, diff), wit(label))
+                else:
+                    R.outcomes['variants:contents-identical'] += 1
+        R.sample(dict(library=name, relocated_variants=[c[1] for c in cases],
+                      marked_files=[f[0] for f in marks['files']] + ['scheme.yaml']),
+                 limit=1)
+    finally:
+        shutil.rmtree(tmp, ignore_errors=True)
+
+
 def shards(tier, seed):
-    return [(n,) for n in libs.LIBS]
+    # both tiers: the shipped data are the whole space
+    return [(n,) for n in libs.LIBS] + [('variants', n) for n in libs.LIBS]
 
 
 def run_shard(shard, tier):
     R = Result()
-    run_library(R, shard[0])
+    if shard[0] == 'variants':
+        run_variants(R, shard[1])
+    else:
+        run_library(R, shard[0])
     return R
 
 
 def replay(w):
     R = Result()
-    run_library(R, w['lib'])
+    if w.get('kind') == 'variants':
+        # one process loads all variants of a library in a fixed order; the
+        # witness names the library, the whole process is re-run
+        run_variants(R, w['lib'])
+    else:
+        run_library(R, w['lib'])
     return dict(violates=bool(R.violations),
                 detail='\n'.join(v['msg'] for v in R.violations[:5]) or 'holds')
